@@ -54,7 +54,9 @@ def twosComp (bits : Nat) (z : Int) : Nat :=
 
 /-- An id string in one of the four encodings.
 * `unicode`  (00b): the bytes as stored
-* `bcdPlus`  (01b): one (high, low) digit pair per byte; digit codes 0–9, Ah space, Bh dash, Ch period
+* `bcdPlus`  (01b): one (high, low) digit pair per byte; §43.15 defines ALL sixteen codes for an SDR:
+  0h–9h digits, Ah space, Bh dash, Ch period, Dh colon, Eh comma, Fh underscore (it is the FRU
+  Information Storage Definition that leaves Dh–Fh reserved; an SDR id string such as "12:30" is well-formed)
 * `sixBit`   (10b): 6-bit ASCII codes (character − 20h), packed 4 characters into 3 bytes, LS bits first
 * `ascii8`   (11b): 8-bit ASCII + Latin 1, one byte per character -/
 inductive IdString where
@@ -74,9 +76,18 @@ def pack6 : List Nat → List Nat
   | a :: b :: c :: d :: rest =>
     (a + (b % 4) * 64) :: (b / 4 + (c % 16) * 16) :: (c / 16 + d * 4) :: pack6 rest
 
-/-- BCD plus digit → character code. -/
+/-- BCD plus code → character code, §43.15: 0h–9h '0'–'9', Ah ' ', Bh '-', Ch '.', Dh ':', Eh ',', Fh '_'. -/
 def bcdChar (d : Nat) : Nat :=
-  if d < 10 then 48 + d else if d = 10 then 32 else if d = 11 then 45 else 46
+  if d < 10 then 48 + d else if d = 10 then 32 else if d = 11 then 45 else if d = 12 then 46
+  else if d = 13 then 58 else if d = 14 then 44 else 95
+
+/-- The same as a table (the sixteen characters `0123456789 -.:,_`), for comparison with the table a
+parser carries. -/
+def bcdPlusSdr : List Nat := [48, 49, 50, 51, 52, 53, 54, 55, 56, 57, 32, 45, 46, 58, 44, 95]
+
+/-- The BCD plus table of the FRU Information Storage Definition (§13): Dh–Fh reserved.  Not an SDR
+table; kept to state what a parser that uses it for SDR id strings gets wrong. -/
+def bcdPlusFru : List Nat := [48, 49, 50, 51, 52, 53, 54, 55, 56, 57, 32, 45, 46]
 
 namespace IdString
 
@@ -107,7 +118,7 @@ def text : IdString → List Nat
 
 def wf : IdString → Bool
   | unicode bs => bs.all (· < 256) && bs.length ≤ 30
-  | bcdPlus ps => ps.all (fun p => p.1 < 13 && p.2 < 13) && ps.length ≤ 30
+  | bcdPlus ps => ps.all (fun p => p.1 < 16 && p.2 < 16) && ps.length ≤ 30
   | sixBit cs => cs.all (· < 64) && cs.length ≤ 40
   | ascii8 cs => cs.all (· < 256) && cs.length ≤ 30
 
@@ -375,7 +386,8 @@ structure FruLocator where
   accessAddress : Nat      -- byte 6 [7:1] (7-bit slave address of the controller; [0] reserved)
   fruDeviceId : Nat        -- byte 7
   logicalPhysical : Nat    -- byte 8 ([7] logical/physical, [4:3] LUN, [2:0] bus id)
-  channelNumber : Nat      -- byte 9
+  channelNumber : Nat      -- byte 9 [7:4]: channel number of the management controller used to access the device
+  channelLow : Nat         -- byte 9 [3:0]: reserved (not reported; a reader ignores it whatever it holds)
   deviceType : Nat         -- byte 11 (10 reserved, written as 0)
   deviceTypeModifier : Nat -- byte 12
   entityId : Nat           -- byte 13
@@ -388,12 +400,12 @@ namespace FruLocator
 
 def wf (r : FruLocator) : Bool :=
   r.recordId < 65536 && r.version < 256 && r.accessAddress < 128 && r.fruDeviceId < 256 &&
-  r.logicalPhysical < 256 && r.channelNumber < 256 && r.deviceType < 256 &&
+  r.logicalPhysical < 256 && r.channelNumber < 16 && r.channelLow < 16 && r.deviceType < 256 &&
   r.deviceTypeModifier < 256 && r.entityId < 256 && r.entityInstance < 256 && r.oem < 256 &&
   r.idString.wf
 
 def body (r : FruLocator) : List Nat :=
-  [r.accessAddress * 2, r.fruDeviceId, r.logicalPhysical, r.channelNumber, 0,
+  [r.accessAddress * 2, r.fruDeviceId, r.logicalPhysical, r.channelNumber * 16 + r.channelLow, 0,
    r.deviceType, r.deviceTypeModifier, r.entityId, r.entityInstance, r.oem]
 
 def encode (r : FruLocator) : List Nat :=
@@ -457,7 +469,8 @@ structure McConfirmation where
   version : Nat
   slaveAddress : Nat       -- byte 6 [7:1]
   deviceId : Nat           -- byte 7
-  channelRevision : Nat    -- byte 8 ([7:4] channel number, [3:0] device revision)
+  channelNumber : Nat      -- byte 8 [7:4]: channel number
+  deviceRevision : Nat     -- byte 8 [3:0]: device revision (bytes 6-8 are the record key)
   firmwareRevision1 : Nat  -- byte 9
   firmwareRevision2 : Nat  -- byte 10
   ipmiVersion : Nat        -- byte 11
@@ -475,12 +488,12 @@ namespace McConfirmation
 
 def wf (r : McConfirmation) : Bool :=
   r.recordId < 65536 && r.version < 256 && r.slaveAddress < 128 && r.deviceId < 256 &&
-  r.channelRevision < 256 && r.firmwareRevision1 < 256 && r.firmwareRevision2 < 256 &&
+  r.channelNumber < 16 && r.deviceRevision < 16 && r.firmwareRevision1 < 256 && r.firmwareRevision2 < 256 &&
   r.ipmiVersion < 256 && r.manufacturerId < 1048576 && r.productId < 65536 &&
   r.guid.length == 16 && r.guid.all (· < 256)
 
 def body (r : McConfirmation) : List Nat :=
-  [r.slaveAddress * 2, r.deviceId, r.channelRevision, r.firmwareRevision1, r.firmwareRevision2,
+  [r.slaveAddress * 2, r.deviceId, r.channelNumber * 16 + r.deviceRevision, r.firmwareRevision1, r.firmwareRevision2,
    r.ipmiVersion,
    r.manufacturerId % 256, r.manufacturerId / 256 % 256, r.manufacturerId / 65536,
    r.productId % 256, r.productId / 256] ++ r.guid
@@ -491,7 +504,7 @@ def encode (r : McConfirmation) : List Nat :=
 def view (r : McConfirmation) : Fields :=
   headerView r.recordId r.version 0x13 27 ++
   [("device_slave_address", .nat r.slaveAddress), ("device_id", .nat r.deviceId),
-   ("channel_number", .nat r.channelRevision),
+   ("channel_number", .nat r.channelNumber), ("device_revision", .nat r.deviceRevision),
    ("firmware_revision_1", .nat r.firmwareRevision1), ("firmware_revision_2", .nat r.firmwareRevision2),
    ("ipmi_version", .nat r.ipmiVersion),
    ("manufacturer_id", .nat r.manufacturerId), ("product_id", .nat r.productId),
